@@ -14,7 +14,7 @@ RULE = (
     "policy = False | int | None | Retry(total, connect, read, status, other, allowed_methods, status_forcelist, "
     "raise_on_status, respect_retry_after_header, backoff_factor, backoff_max, backoff_jitter), method, per-attempt outcome "
     "script of <= 5 outcomes from {connect refused, connect timeout, name resolution error, read timeout, reset, EOF, "
-    "garbage status line, short body, reset while sending, TLS record error, 200, 500, 503, 413/429/503/500 with "
+    "garbage status line, short body, reset while sending, a non-connection OSError while the reply is awaited, TLS record error, 200, 500, 503, 413/429/503/500 with "
     "Retry-After}). The real pool is run against the scripted in-memory server with a virtual clock; the oracle counts "
     "the attempts the SERVER saw (not Retry's own counters). Non-trivial = at least one retry happened, or a retry was "
     "refused for a budget or method reason (the call ended on a retryable outcome)."
@@ -27,8 +27,8 @@ ASSUMPTIONS = [
 ]
 EXHAUSTIVE = {"quick": False, "thorough": True}
 
-FAULTS = ["refused", "ctimeout", "gaierror", "rtimeout", "rreset", "eof", "garbage", "short_eof", "sreset", "rssl", "tlsfail", "connect_refused"]
-CATEGORY = {"refused": "connect", "ctimeout": "connect", "gaierror": "connect", "rtimeout": "read", "rreset": "read", "eof": "read", "garbage": "read", "short_eof": "read", "sreset": "read", "rssl": "other", "tlsfail": "other", "connect_refused": "other"}
+FAULTS = ["refused", "ctimeout", "gaierror", "rtimeout", "rreset", "eof", "garbage", "short_eof", "sreset", "rssl", "tlsfail", "connect_refused", "rother"]
+CATEGORY = {"refused": "connect", "ctimeout": "connect", "gaierror": "connect", "rtimeout": "read", "rreset": "read", "eof": "read", "garbage": "read", "short_eof": "read", "sreset": "read", "rssl": "other", "tlsfail": "other", "connect_refused": "other", "rother": "read"}
 RESPS = [{"s": 200}, {"s": 500}, {"s": 503}, {"s": 429, "ra": "2"}, {"s": 503, "ra": "7"}, {"s": 413, "ra": "1"}, {"s": 500, "ra": "3"}, {"s": 429, "ra": "0"}, {"s": 404, "ra": "5"},
          # Retry-After as an HTTP-date: 4 s after the reply, and a date that has already passed
          {"s": 503, "ra": "@date+4"}, {"s": 429, "ra": "@date-30"}]
@@ -143,7 +143,7 @@ def wrapped_types(kind, proxied, pool=None):
         "refused": (ue.NewConnectionError,), "ctimeout": (ue.ConnectTimeoutError,), "gaierror": (ue.NameResolutionError,),
         "rtimeout": (ue.ReadTimeoutError,), "rreset": (ue.ProtocolError,), "eof": (ue.ProtocolError,), "garbage": (ue.ProtocolError,),
         "short_eof": (ue.ProtocolError,), "sreset": (ue.ProtocolError,), "rssl": (ue.SSLError,),
-        "tlsfail": (ue.SSLError,), "connect_refused": (ue.ProxyError,),
+        "tlsfail": (ue.SSLError,), "connect_refused": (ue.ProxyError,), "rother": (ue.ProtocolError,),
     }[kind]
     if proxied and kind in ("refused", "ctimeout", "gaierror"):
         return (ue.ProxyError,)  # could not reach the proxy
@@ -348,7 +348,7 @@ SO = [None, 0, 1, 2]
 def enum_cases(tier):
     """Bounded-exhaustive: budget grid x method class x all outcome sequences of length <= L."""
     L = 2 if tier == "quick" else 3
-    outs = FAULTS + RESPS[:6] if tier != "quick" else ["refused", "ctimeout", "rtimeout", "rreset", "eof", "garbage", "sreset", "rssl", "tlsfail", "connect_refused", {"s": 200}, {"s": 503}, {"s": 429, "ra": "2"}, {"s": 500, "ra": "3"}]
+    outs = FAULTS + RESPS[:6] if tier != "quick" else ["refused", "ctimeout", "rtimeout", "rreset", "eof", "garbage", "sreset", "rssl", "tlsfail", "connect_refused", "rother", {"s": 200}, {"s": 503}, {"s": 429, "ra": "2"}, {"s": 500, "ra": "3"}]
     grids = []
     for total, connect, read in itertools.product(TOTALS, CR, CR):
         grids.append({"t": "retry", "total": total, "connect": connect, "read": read})
